@@ -351,8 +351,12 @@ def main(modname, tier, seed, replay_path=None, jobs=None):
 
     errors = [a["error"] for a in results if a["error"]]
     if errors:
-        sys.stderr.write("HARNESS ERROR in %s:\n%s\n" % (pid, errors[0]))
-        return 2
+        # A unit whose harness failed (e.g. a schedule that does not replay because the code
+        # under test became non-deterministic) decides nothing.  Violations found by the other
+        # units are still real executions and are reported (exit 1); with none, exit 2.
+        sys.stderr.write("HARNESS ERROR in %s (%d unit(s)):\n%s\n" % (pid, len(errors), errors[0]))
+        if not any(a["violations"] for a in results):
+            return 2
 
     summary = {
         "evaluations": sum(a["evaluations"] for a in results),
@@ -447,7 +451,7 @@ def main(modname, tier, seed, replay_path=None, jobs=None):
         "distinct_nontrivial": len(summary["nontrivial"]),
         "rule": mod.RULE,
         "samples": samples,
-        "exhaustive": not any(a.get("truncated") for a in results) and not hangs,
+        "exhaustive": not any(a.get("truncated") for a in results) and not hangs and not errors,
         "executions": summary["executions"],
         "distinct_observed_outcomes": len(summary["outcomes"]),
         "bounds": mod.BOUNDS(tier),
@@ -497,6 +501,8 @@ def main(modname, tier, seed, replay_path=None, jobs=None):
             time.time() - t0,
         )
     )
+    if errors and not fresh:
+        return 2
     return 1 if fresh else 0
 
 
